@@ -84,6 +84,15 @@ CHECKS["C04"] = dict(
     design_ref="8.8, 8.10",
 )
 
+CHECKS["C03"] = dict(
+    engine="mirsym",
+    technique="SMT (z3/cvc5; arrays, bit-vectors, f64) over a symbolic execution of the real MIR of the async state machines DhtCoreEngine::{store, retrieve} (with select_storage_peers, the routing-table kernel and LoadBalancer::select_least_loaded) and DhtNetworkManager::{handle_dht_request(Put), store_local_in_core, handle_lookup_request(Get/FindValue), retrieve_local_from_core} from an arbitrary local data store",
+    category="proof",
+    text="PARTIAL claim (the single-node store / retrieve kernel and the size limit on every store path). One call from an ARBITRARY local data store and a routing table holding up to two arbitrary peers: a value that DhtCoreEngine::store accepts (the function behind put / store_local / put_with_targets and behind the remote PUT handler) is afterwards held byte for byte under its key by this node, a value over 512 bytes is refused and never enters the store, a refusal changes nothing, no other key is touched; a replica answers a PUT request with PutSuccess only if it now holds the value; a local retrieve / the value side of a GET or FIND_VALUE reply returns exactly the bytes held under THAT key, finds every held value, and does not modify the store. One genuine defect found this way (accepted values were dropped as soon as one peer was known) was replayed natively and repaired in /repo (known_findings.json).",
+    note="NOT claimed: the network half of the property -- which peers a put targets, replication outcomes per peer, the iterative get and its query budget, interleavings of puts and gets on several nodes -- multi-node histories over the transport. Store keys have their first differing bit at a listed position (the storage-peer selection walks buckets from there). Trusts the HashMap/Vec/iterator/sort summaries, opaque byte strings (identity + length), uncontended locks, the solvers.",
+    design_ref="8.10",
+)
+
 NA = {
     "C01": "monolithic async fn over tokio/QUIC transport with string-keyed hash sets and timeouts; no solver-reachable encoding of the real code",
     "C02": "pending: routing-table kernel check not built yet",
